@@ -257,7 +257,8 @@ class JetSc:
             if b.v == 0.0:
                 self.ok = False
                 return a
-            return self._mul(a, self._unary_raw(b, 1.0 / b.v, -1.0 / b.v ** 2, 2.0 / b.v ** 3))
+            r = 1.0 / b.v  # r*r*r overflows to inf (caught by _unary_raw) where b.v ** 3 would raise OverflowError
+            return self._mul(a, self._unary_raw(b, r, -r * r, 2.0 * r * r * r))
         if op == "**":
             return self._pow(a, b)
         raise ValueError(op)
